@@ -135,7 +135,7 @@ func VerifHarness_C12_eof() {
 // ChangeCipherSpec only when expected and well formed and with no partial handshake message pending, an
 // empty handshake record is refused, errors are latched; arbitrary stream of 0..12 bytes.
 //
-//verif:harness props=C08,C12,C09,C03 paths=100000 reach=accepted,ccs,error
+//verif:harness props=C08,C12,C09,C03 paths=200000 spin=C09.progress.recordLoopTerminates reach=accepted,ccs,error
 func VerifHarness_C08_record_prehandshake() {
 	// the stream: up to two records whose length fields are attacker-chosen case splits (contents symbolic),
 	// optionally cut short
